@@ -728,6 +728,9 @@ func (tic *TermInCommittee) validateViewChangeVotes(targetBlockHeight primitives
 			return fmt.Errorf("memberId %s appears in more than one confirmation", senderMemberIdStr)
 		}
 		set[senderMemberIdStr] = true
+		if err := tic.isViewChangeValid(nil, targetView, confirmation); err != nil {
+			return fmt.Errorf("confirmation of memberId %s is invalid: %s", senderMemberIdStr, err)
+		}
 	}
 
 	return nil
